@@ -336,6 +336,66 @@ __CPROVER_ensures(OLD(q.len) == 0 ? (q.schedules == 0 && q.len == 0) : (q.schedu
 void harness(void) { Queue* s; q.schedules = 0; q.len = nondet_ulong(); unsigned long l0 = q.len; NotifyOneF(s); if (l0) VF_CANARY("woke one"); else VF_CANARY("nobody parked"); }
 '''
     job('FiberQueue.NotifyOne', b, src, 'NotifyOneF', ['LEmpty', 'PollRandomElementFromList', 'ScheduleAndRemove'], canaries=2)
+    # NotifyAll: every fiber parked at the moment of the call is made runnable exactly once; fibers that park during the walk are not touched (they wait for the next notify)
+    def notify_all():
+        b = find_body(repo, D + 'queue.cpp', r'void\s+FiberQueue::NotifyAll\s*\(', 'FiberQueue::NotifyAll')
+        pre = qpre + [(r'auto\s+all\s*=\s*std::move\(\s*_queue\s*\)\s*;', 'unsigned long all = LIST_TAKE();', 1), (r'_queue\s*=\s*BiList\(\)\s*;', 'LIST_RESET();', 0),
+                      (r'all\.Empty\(\)', '(all == 0)', 1), (r'all\.PopBack\(\)', 'LIST_POP(&all)', 1), (r'auto\s*\*\s*fiber\s*=', 'Node* fiber =', 0)]
+        c = Rewriter('FiberQueue::NotifyAll', pre=pre, nomembers=['_queue']).rewrite(b.text)
+        has_loop = bool(re.search(r'\b(while|for)\b', c))
+        if has_loop:
+            c = attach_loop_contracts('FiberQueue::NotifyAll', c, ['__CPROVER_assigns(all, q.schedules, q.scheduled)\n__CPROVER_loop_invariant(all <= g_taken && q.schedules == g_taken - all && q.len == 0)'])
+        src = Q + '''unsigned long g_taken; unsigned char g_reset_done;
+/* std::move of the BiList: the local list takes every parked fiber, the member is left in a moved-from state that `_queue = BiList()` re-initialises */
+unsigned long LIST_TAKE(void) __CPROVER_assigns(q.len, g_taken) __CPROVER_ensures(RET == OLD(q.len) && g_taken == OLD(q.len) && q.len == 0);
+void LIST_RESET(void) __CPROVER_assigns(g_reset_done) __CPROVER_ensures(g_reset_done == 1);
+Node* LIST_POP(unsigned long* l) __CPROVER_requires(*l >= 1) __CPROVER_assigns(*l) __CPROVER_ensures(*l == OLD(*l) - 1 && RET == &g_other);
+void NotifyAllF(Queue* self)
+__CPROVER_requires(__CPROVER_is_fresh(self, sizeof(*self)) && q.schedules == 0 && q.len < (1UL << 32))
+__CPROVER_assigns(q.len, q.schedules, q.scheduled, g_taken, g_reset_done)
+/* C18 notify_all: every fiber that was parked on the queue is taken out and made runnable, each exactly once; nobody stays behind */
+__CPROVER_ensures(q.schedules == OLD(q.len) && q.len == 0)
+{''' + c + '''}
+void harness(void) { Queue* s; q.schedules = 0; q.len = nondet_ulong(); unsigned long l0 = q.len; NotifyAllF(s); if (l0 > 1) VF_CANARY("woke several"); else VF_CANARY("at most one parked"); }
+'''
+        job('FiberQueue.NotifyAll', b, src, 'NotifyAllF', ['LIST_TAKE', 'LIST_RESET', 'LIST_POP', 'ScheduleAndRemove'], canaries=2, loops=has_loop, expect=[r'postcondition'] + ([r'invariant after step|loop_invariant_step'] if has_loop else []))
+        # ScheduleAndRemove: a fiber that is not runnable yet is taken out of the sleep structures and scheduled, exactly once
+        b = find_body(repo, D + 'queue.cpp', r'void\s+FiberQueue::ScheduleAndRemove\s*\(\s*FiberBase\s*\*\s*node\s*\)', 'FiberQueue::ScheduleAndRemove')
+        pre = [(r'node->GetState\(\)\s*!=\s*Waiting', '(!g_is_waiting)', 0), (r'node->GetState\(\)\s*==\s*Waiting', '(g_is_waiting)', 0), (r'static_cast<BiNodeScheduler\s*\*>\(node\)->Erase\(\)', 'SCHED_NODE_ERASE(node)', 0),
+               (r'fault::Scheduler::GetScheduler\(\)->Schedule\(\s*node\s*\)', 'SCHEDULE(node)', 0)]
+        c = Rewriter('FiberQueue::ScheduleAndRemove', pre=pre).rewrite(b.text)
+        src = COMMON + '''typedef struct Node { int x; } Node;
+unsigned char g_is_waiting; unsigned g_erases, g_schedules; Node* g_scheduled; unsigned char g_erase_before_schedule;
+void SCHED_NODE_ERASE(Node* n) __CPROVER_assigns(g_erases) __CPROVER_ensures(g_erases == OLD(g_erases) + 1);
+void SCHEDULE(Node* n) __CPROVER_assigns(g_schedules, g_scheduled, g_erase_before_schedule) __CPROVER_ensures(g_schedules == OLD(g_schedules) + 1 && g_scheduled == n && g_erase_before_schedule == (g_erases == 1));
+void ScheduleAndRemoveF(Node* node)
+__CPROVER_requires(node != 0 && g_erases == 0 && g_schedules == 0 && g_is_waiting <= 1)
+__CPROVER_assigns(g_erases, g_schedules, g_scheduled, g_erase_before_schedule)
+/* C18: a notified fiber that is not already runnable (state Waiting = already in the run queue, e.g. woken by the clock in the same step) is removed from the sleep bucket it may be
+   in and scheduled exactly once - never twice (it would be resumed twice), never left out */
+__CPROVER_ensures(g_is_waiting ? (g_schedules == 0 && g_erases == 0) : (g_schedules == 1 && g_scheduled == node && g_erases == 1 && g_erase_before_schedule))
+{''' + c + '''}
+void harness(void) { Node* n; __CPROVER_assume(n != 0); g_erases = g_schedules = 0; g_is_waiting = nondet_uchar() & 1; ScheduleAndRemoveF(n); if (g_is_waiting) VF_CANARY("already runnable"); else VF_CANARY("made runnable"); }
+'''
+        job('FiberQueue.ScheduleAndRemove', b, src, 'ScheduleAndRemoveF', ['SCHED_NODE_ERASE', 'SCHEDULE'], canaries=2)
+        # ConditionVariable::notify_one / notify_all: exactly the queue operation of that name
+        for nm, want in (('notify_one', 'g_n1 == 1 && g_nall == 0'), ('notify_all', 'g_n1 == 0 && g_nall == 1')):
+            b = find_body(repo, D + 'condition_variable.cpp', r'void\s+ConditionVariable::' + nm + r'\s*\(\s*\)\s*noexcept', 'fiber::ConditionVariable::' + nm)
+            c = Rewriter('ConditionVariable::' + nm, pre=[(r'_queue\.NotifyOne\(\)', 'Q_NotifyOne(&self->_queue)', 0), (r'_queue\.NotifyAll\(\)', 'Q_NotifyAll(&self->_queue)', 0)], nomembers=['_queue']).rewrite(b.text)
+            src = COMMON + '''typedef struct CV { int _queue; } CV; unsigned g_n1, g_nall; void* g_nq;
+void Q_NotifyOne(void* q) __CPROVER_assigns(g_n1, g_nq) __CPROVER_ensures(g_n1 == OLD(g_n1) + 1 && g_nq == q);
+void Q_NotifyAll(void* q) __CPROVER_assigns(g_nall, g_nq) __CPROVER_ensures(g_nall == OLD(g_nall) + 1 && g_nq == q);
+void F(CV* self) __CPROVER_requires(__CPROVER_is_fresh(self, sizeof(*self)) && g_n1 == 0 && g_nall == 0) __CPROVER_assigns(g_n1, g_nall, g_nq)
+/* C18: %s wakes through this condition variable's own queue: one waiter / every waiter parked there */
+__CPROVER_ensures(%s && g_nq == (void*)&self->_queue)
+{''' % (nm, want) + c + '''}
+void harness(void) { CV* c; g_n1 = g_nall = 0; F(c); VF_CANARY("end"); }
+'''
+            job('ConditionVariable.' + nm, b, src, 'F', ['Q_NotifyOne', 'Q_NotifyAll'])
+    try:
+        notify_all()
+    except ExtractionBreak as e:
+        ctx.breaks.append(str(e))
     # ConditionVariable::WaitImpl
     b = find_body(repo, H + 'condition_variable.hpp', r'WaitStatus\s+WaitImpl\s*\(', 'fiber::ConditionVariable::WaitImpl')
     c = Rewriter('ConditionVariable::WaitImpl', pre=[(r'lock\.unlock\(\)', 'M_unlock(lock)', 0), (r'lock\.lock\(\)', 'M_lock(lock)', 0), (r'_queue\.Wait\(\s*timeout\s*\)', 'CV_Wait(self, timeout)', 0)]).rewrite(b.text)
